@@ -3,19 +3,20 @@
 # Applies seeded/<id>/patch.diff to a scratch worktree of /repo's HEAD (so concurrent work on /repo is not disturbed),
 # runs the check against it (VERIF_REPO), removes the worktree. With SEED_INPLACE=1 it applies to /repo itself and reverts.
 set -u
+V=$(cd "$(dirname "$0")/.." && pwd)
 sid=$1; prop=$2; tier=${3:-quick}
 log=/tmp/seedrun_${sid}_${prop}.log
 if [ "${SEED_INPLACE:-0}" = "1" ]; then
   cd /repo || exit 2
   git diff --quiet || { echo "/repo has uncommitted changes; refusing"; exit 2; }
-  git apply /verif/seeded/$sid/patch.diff || { echo "patch does not apply"; exit 2; }
-  (cd /verif && python3 tools/check.py $prop --tier $tier > $log 2>&1); rc=$?
+  git apply $V/seeded/$sid/patch.diff || { echo "patch does not apply"; exit 2; }
+  (cd $V && python3 tools/check.py $prop --tier $tier > $log 2>&1); rc=$?
   git -C /repo checkout -- .
 else
   wt=/tmp/sr_${sid}_$$
   git -C /repo worktree add --detach $wt HEAD >/dev/null 2>&1 || exit 2
-  (cd $wt && git apply /verif/seeded/$sid/patch.diff) || { echo "patch does not apply"; git -C /repo worktree remove --force $wt; exit 2; }
-  (cd /verif && VERIF_REPO=$wt python3 tools/check.py $prop --tier $tier > $log 2>&1); rc=$?
+  (cd $wt && git apply $V/seeded/$sid/patch.diff) || { echo "patch does not apply"; git -C /repo worktree remove --force $wt; exit 2; }
+  (cd $V && VERIF_REPO=$wt python3 tools/check.py $prop --tier $tier > $log 2>&1); rc=$?
   git -C /repo worktree remove --force $wt
 fi
 echo "seed=$sid prop=$prop tier=$tier rc=$rc  $(grep -c '^VIOLATION' $log) violation line(s)"
